@@ -160,7 +160,7 @@ def gen_script(K, extra):
 
 def harnesses(tier):
     q = tier == 'quick'
-    K = 3 if q else 5
+    K = 3 if q else 4
     hs = [
         Harness('reliable_write', 'io', h_reliable_write, jobs=[dict(calls=K, maxsize=1 << 31), dict(calls=2, maxsize=(1 << 31) + (1 << 28))],
                 desc='reliable_write with up to %d write() calls returning arbitrary values allowed by POSIX (short writes, EINTR, any errno), symbolic size: each write continues at the current offset with count <= remaining (<= 100 MiB); normal return iff everything was written and nothing but EINTR failed; otherwise std::system_error' % K,
